@@ -14,6 +14,7 @@ from sim import adapters, workload
 from sim.core import EndRun, np_seed
 
 PROP = "C01"
+FORKS = True      # snapshot / restore events (core.Ctx.maybe_fork)
 LEVEL = "exploration"
 RULE = (
     "per detector class (15): seeded client history of 80-400 updates (batch: 6-22 batches) with environment "
@@ -132,6 +133,7 @@ def run_stream(case, ctx):
     cause = "start"
     for i, ev in enumerate(case["events"]):
         ctx.step = i
+        det = ctx.maybe_fork(det)
         if ev[0] == "r":
             ctx.call(f"C01:{name}:reset", det.reset)
             ctx.fault("explicit_reset")
@@ -245,6 +247,7 @@ def run_batch(case, ctx):
     resync = False
     for i, ev in enumerate(case["events"]):
         ctx.step = i
+        det = ctx.maybe_fork(det)
         if ev[0] == "r":
             ctx.call(f"C01:{name}:reset", det.reset)
             ctx.fault("explicit_reset")
